@@ -4,6 +4,7 @@ import (
 	"bytes"
 	"context"
 	"encoding/binary"
+	"encoding/hex"
 	"errors"
 	"fmt"
 	"io"
@@ -96,6 +97,18 @@ func (w *world) receive(b hs.Blob) (sr blob.SizedRef, err error, panicked string
 		}
 	}()
 	sr, err = blobserver.Receive(ctx, w.sto, b.Ref, bytes.NewReader(b.Data))
+	return
+}
+
+// receiveDirect calls the storage's own ReceiveBlob (what other storage
+// wrappers and blobserver.ReceiveNoHash do).
+func (w *world) receiveDirect(b hs.Blob) (err error, panicked string) {
+	defer func() {
+		if r := recover(); r != nil {
+			panicked = normPanic(r)
+		}
+	}()
+	_, err = w.sto.ReceiveBlob(ctx, b.Ref, bytes.NewReader(b.Data))
 	return
 }
 
@@ -343,8 +356,10 @@ func newLeakScanner(plain []hs.Blob) (*leakScanner, error) {
 	}
 	for _, b := range plain {
 		hexd := b.Ref.Digest()
-		raw := make([]byte, len(hexd)/2)
-		fmt.Sscanf(hexd, "%x", &raw)
+		raw, err := hex.DecodeString(hexd)
+		if err != nil || len(hexd) < 16 {
+			return nil, fmt.Errorf("plaintext %s: digest %q not usable as a needle", b.Name, hexd)
+		}
 		l.addNeedle([]byte(hexd), "blobref of plaintext "+b.Name+" (hex digest)")
 		l.addNeedle([]byte(hexd[:16]), "blobref of plaintext "+b.Name+" (first 16 hex digits)")
 		l.addNeedle(raw, "blobref of plaintext "+b.Name+" (binary digest)")
@@ -419,3 +434,14 @@ func (l *leakScanner) scanWorld(w *world) *leak {
 func (l *leakScanner) forget() { l.seen = map[seenKey]struct{}{} }
 
 var errFrozen = errors.New("verif: device frozen (crash point reached)")
+
+var dumped = map[string]bool{}
+
+// dumpOutcome prints each distinct outcome key once when C11_DUMP_OUTCOMES is set (debugging aid).
+func dumpOutcome(scenario, key string) {
+	if os.Getenv("C11_DUMP_OUTCOMES") == "" || dumped[scenario+key] {
+		return
+	}
+	dumped[scenario+key] = true
+	fmt.Fprintf(os.Stderr, "OUTCOME %s %s\n", scenario, key)
+}
